@@ -131,6 +131,24 @@ func checkC02(e *Env) {
 		}
 	})
 
+	// histories: a valid sentence right after other sentences, other languages, near misses
+	histCalls := e.runHistories(drv, "C02", e.pick(32, 400), 5, func(ops []plan.Op, res []plan.Res) {
+		for i := range res {
+			op := &ops[i]
+			if (op.Fn != "chk" && op.Fn != "val") || op.L < 0 || op.L >= ref.NLang || res[i].Panic != "" {
+				continue
+			}
+			if st, _ := e.RefValidate(op.Str(), int(op.L)); st != ref.OK {
+				continue
+			}
+			accepted := (op.Fn == "chk" && res[i].Err == nil) || (op.Fn == "val" && res[i].B != nil && *res[i].B)
+			if !accepted {
+				e.Violate(&Violation{What: fmt.Sprintf("after earlier calls in the same process a valid %s mnemonic is rejected by %s (%s): %s", ref.Names[op.L], fnName(op.Fn), errText(res[i].Err), preview(op.Str())),
+					Ops: ops[:i+1], Expected: "accepted", Observed: res[i], Detail: historyNote})
+				return
+			}
+		}
+	})
 	possible := 0
 	for range ref.Names {
 		possible += 23 * 2048
@@ -149,6 +167,7 @@ func checkC02(e *Env) {
 		"language_position_word_accepted":          posWordCount,
 		"language_position_word_possible_first_23": possible,
 		"own_output_differs_from_reference":        ownDiffersFromRef.Map(),
+		"calls_inside_histories":                   histCalls,
 		"children":                                 stats.Children,
 		"child_deaths":                             stats.Deaths,
 	}, []string{
